@@ -17,6 +17,9 @@ import (
 
 	sdk "github.com/cosmos/cosmos-sdk/types"
 	banktypes "github.com/cosmos/cosmos-sdk/x/bank/types"
+	govv1 "github.com/cosmos/cosmos-sdk/x/gov/types/v1"
+
+	"github.com/bandprotocol/chain/v3/pkg/tss"
 
 	bandtsstypes "github.com/bandprotocol/chain/v3/x/bandtss/types"
 	feedstypes "github.com/bandprotocol/chain/v3/x/feeds/types"
@@ -40,8 +43,9 @@ type c08Sig struct {
 }
 
 type c08Op struct {
-	K        string   `json:"k"` // create|fund|price|trigger|activate|deactivate|desall|drain|end
+	K        string   `json:"k"` // create|fund|price|trigger|activate|deactivate|desall|drain|end|transition
 	Route    string   `json:"route,omitempty"`
+	Enc      string   `json:"enc,omitempty"` // tss route: "tick" | "fixed" | "" (every second tunnel signs tick-encoded packets)
 	Signals  []c08Sig `json:"signals,omitempty"`
 	Interval uint64   `json:"interval,omitempty"`
 	T        int      `json:"t,omitempty"` // tunnel ref (mod count)
@@ -53,7 +57,16 @@ type c08Op struct {
 	By       int      `json:"by,omitempty"`
 }
 
+// c08G2 is a second ACTIVE tss group present at genesis: the target of a governance MsgForceTransitionGroup (op
+// "transition"; N = seconds between the end of the voting period and the execution time). While that transition waits
+// for its execution time every signing request is made to the current AND to the incoming group.
+type c08G2 struct {
+	Members string `json:"members"` // same | overlap | disjoint : accounts shared with the first group
+	Thr     int    `json:"thr"`
+}
+
 type c08Case struct {
+	G2        *c08G2  `json:"g2,omitempty"`
 	HasGroup  bool    `json:"has_group"`
 	InitDE    int     `json:"init_de"`
 	FeeSigner int64   `json:"fee_per_signer"`
@@ -83,9 +96,30 @@ func genC08(rt *rapid.T) c08Case {
 		c.Ops = append(c.Ops, c08Op{K: "create", Route: gen.OneOf(rt, "route", "tss", "tss", "tss", "tss", "tss", "ibc"), Signals: genSignals(),
 			Interval: uint64(gen.OneOf(rt, "interval", 3, 10, 30, 100, 1000)), Fund: gen.OneOf(rt, "fund0", "many", "many", "k", "k-1", "none")})
 	}
+	// a forced group transition: the proposal is submitted and voted on in one block, passes two seconds later and then
+	// waits N more seconds for its execution time. Usually a tick-encoding TSS tunnel is opened right inside that window.
+	transAt := -1
+	if gen.Chance(rt, "g2", 7, 10) {
+		c.G2 = &c08G2{Members: gen.OneOf(rt, "g2members", "same", "overlap", "overlap", "disjoint"), Thr: gen.OneOf(rt, "g2thr", 1, 2, 2, 3)}
+		transAt = gen.Range(rt, "trans_at", 0, nops/3)
+	}
+	addTransition := func() {
+		if gen.Chance(rt, "trans_des", 3, 4) {
+			c.Ops = append(c.Ops, c08Op{K: "desall", N: gen.OneOf(rt, "nde", 1, 2, 4)})
+		}
+		c.Ops = append(c.Ops, c08Op{K: "transition", N: gen.OneOf(rt, "trans_wait", 1, 3, 3, 5, 8, 8, 15, 40)},
+			c08Op{K: "end", N: 1}, c08Op{K: "end", N: gen.OneOf(rt, "trans_pass", 2, 2, 2, 3)})
+		if gen.Chance(rt, "trans_tick", 5, 6) {
+			c.Ops = append(c.Ops, c08Op{K: "create", Route: "tss", Enc: gen.OneOf(rt, "enc", "tick", "tick", "tick", "fixed"), Signals: genSignals(),
+				Interval: uint64(gen.OneOf(rt, "interval", 3, 3, 10, 30)), Fund: "many"}, c08Op{K: "end", N: 1})
+		}
+	}
 	addCreate()
 	for i := 0; i < nops; i++ {
-		switch gen.Pick(rt, "op", 5, 8, 34, 5, 4, 3, 7, 2, 32) {
+		if i == transAt {
+			addTransition()
+		}
+		switch gen.Pick(rt, "op", 5, 8, 34, 5, 4, 3, 7, 2, 32, 1) {
 		case 0:
 			addCreate()
 		case 1:
@@ -103,9 +137,11 @@ func genC08(rt *rapid.T) c08Case {
 		case 6:
 			c.Ops = append(c.Ops, c08Op{K: "desall", N: gen.OneOf(rt, "nde", 1, 2, 4)})
 		case 7:
-			c.Ops = append(c.Ops, c08Op{K: "drain", T: gen.Uniform(rt, "m", 3)})
+			c.Ops = append(c.Ops, c08Op{K: "drain", T: gen.Uniform(rt, "m", 6)})
 		case 8:
 			c.Ops = append(c.Ops, c08Op{K: "end", N: gen.OneOf(rt, "dt", 0, 1, 1, 1, 2, 2, 5, 30)})
+		case 9: // a (second) transition proposal at an arbitrary point: refused while one is in progress, late ones may miss their window
+			c.Ops = append(c.Ops, c08Op{K: "transition", N: gen.OneOf(rt, "trans_wait2", 1, 3, 8, 40)})
 		}
 	}
 	return c
@@ -126,6 +162,19 @@ type c08Tunnel struct {
 	order                     []string // order of latest prices list
 	lastIntvl                 int64
 	devPacket, intervalPacket bool
+	tick                      bool      // ENCODER_TICK_ABI
+	lastBase, lastRoute       sdk.Coins // fees of the latest packet (the route fee follows the current group's threshold)
+	lastWindow                bool      // the latest packet was produced while a group transition waited for execution
+	lastNSig                  int       // signings (request_signature events) created for the latest packet
+	classedSeq                uint64    // latest packet whose signings have been counted for the class histogram
+}
+
+// c08Prop is a governance proposal carrying MsgForceTransitionGroup(second group, execTime).
+type c08Prop struct {
+	pid       uint64
+	votingEnd time.Time
+	execTime  time.Time
+	state     string // voting | waiting | executed | rejected
 }
 
 // refDeviationBPS: |new-old|*10000/old ; 0 when equal ; "infinite" when old == 0 and new != 0.
@@ -149,9 +198,14 @@ type c08World struct {
 	c       c08Case
 	v       *pbt.Verdict
 	ch      *sim.Chain
-	grp     *tssworld.Group
+	grp     *tssworld.Group // group 1
+	grp2    *tssworld.Group // group 2 (nil without c.G2)
+	cur     *tssworld.Group // bandtss current group (nil: none)
+	inc     *tssworld.Group // incoming group of a transition in WAITING_EXECUTION (nil: none)
+	props   []*c08Prop
+	nextPID uint64
 	wallet  *tssworld.Wallet
-	members []*sim.Account
+	members []*sim.Account // every account that is a member of some group
 	creator *sim.Account
 	other   *sim.Account
 	funder  *sim.Account
@@ -167,13 +221,24 @@ type c08World struct {
 	notDue                          int
 	signedPackets                   int // packets whose signed bytes were decoded and compared with the stored packet
 	signedNonAvailable              int // ... price entries of those packets that were not AVAILABLE (delisted / not ready)
+	windowBlocks                    int // blocks whose tunnel end blocker ran while a transition waited for execution
+	twoGroupPackets, twoGroupTick   int // packets signed by the current AND the incoming group (... with the tick encoder)
+	incomingOnlyPackets             int // packets signed by the incoming group alone (no current group)
+	transExecuted, transRejected    int
+	packetsAfterTransition          int // TSS packets signed (and paid for at its threshold) by the second group as current group
+	twoSigningsOneFee               int // packets for which two signings were created and a non-zero route fee was charged (once)
+	tickValuesChecked               int
 }
 
+func c08ActiveKey(gid tss.GroupID, addr string) string { return fmt.Sprintf("%d/%s", gid, addr) }
+
+// routeFee: fee_per_signer times the threshold of the CURRENT group; nothing is charged while there is no current group
+// (then only an incoming group can sign).
 func (w *c08World) routeFee() sdk.Coins {
-	if !w.c.HasGroup || w.c.FeeSigner == 0 {
+	if w.cur == nil || w.c.FeeSigner == 0 {
 		return sdk.NewCoins()
 	}
-	return sdk.NewCoins(sdk.NewInt64Coin("uband", w.c.FeeSigner*int64(w.grp.Threshold)))
+	return sdk.NewCoins(sdk.NewInt64Coin("uband", w.c.FeeSigner*int64(w.cur.Threshold)))
 }
 
 func (w *c08World) feeOf(t *c08Tunnel) (base, route sdk.Coins) {
@@ -185,10 +250,12 @@ func (w *c08World) feeOf(t *c08Tunnel) (base, route sdk.Coins) {
 	return
 }
 
-func (w *c08World) available() int {
+// available: members of g that are active in g and have a nonce pair queued (the queue belongs to the account, the
+// active flag to the membership).
+func (w *c08World) available(g *tssworld.Group) int {
 	n := 0
-	for _, m := range w.grp.Members {
-		if w.tssActive[m.Addr] && w.queueLen[m.Addr] > 0 {
+	for _, m := range g.Members {
+		if w.tssActive[c08ActiveKey(g.ID, m.Addr)] && w.queueLen[m.Addr] > 0 {
 			n++
 		}
 	}
@@ -199,14 +266,73 @@ func (w *c08World) sendShouldSucceed(t *c08Tunnel) (bool, string) {
 	if t.route == "ibc" {
 		return false, "ibc channel never set"
 	}
-	if !w.c.HasGroup {
-		return false, "no signing group"
+	if w.cur == nil {
+		// without a current group the request stands or falls with the incoming group of a waiting transition
+		if w.inc == nil {
+			return false, "no signing group"
+		}
+		if w.available(w.inc) < int(w.inc.Threshold) {
+			return false, fmt.Sprintf("no current group and only %d available members for threshold %d of the incoming group", w.available(w.inc), w.inc.Threshold)
+		}
+		return true, ""
 	}
-	if w.available() < int(w.grp.Threshold) {
-		return false, fmt.Sprintf("only %d available members for threshold %d", w.available(), w.grp.Threshold)
+	// the signing of the incoming group is optional: its failure never fails the request
+	if w.available(w.cur) < int(w.cur.Threshold) {
+		return false, fmt.Sprintf("only %d available members for threshold %d", w.available(w.cur), w.cur.Threshold)
 	}
 	return true, ""
 }
+
+// stepTransition advances governance and the bandtss end blocker to block time now (both run before the tunnel end
+// blocker): proposals whose voting period ended are executed in order; a transition whose time has come is executed.
+func (w *c08World) stepTransition(now time.Time) {
+	sort.SliceStable(w.props, func(i, j int) bool {
+		if !w.props[i].votingEnd.Equal(w.props[j].votingEnd) {
+			return w.props[i].votingEnd.Before(w.props[j].votingEnd)
+		}
+		return w.props[i].pid < w.props[j].pid
+	})
+	inProgress := func() bool {
+		for _, p := range w.props {
+			if p.state == "waiting" {
+				return true
+			}
+		}
+		return false
+	}
+	for _, p := range w.props {
+		if p.state != "voting" || now.Before(p.votingEnd) {
+			continue
+		}
+		switch {
+		case p.execTime.Before(now.Add(c08MinTransition)) || p.execTime.After(now.Add(c08MaxTransition)):
+			p.state = "rejected"
+		case inProgress():
+			p.state = "rejected"
+		case w.cur == w.grp2:
+			p.state = "rejected"
+		default:
+			p.state = "waiting"
+			w.inc = w.grp2
+		}
+		if p.state == "rejected" {
+			w.transRejected++
+		}
+	}
+	for _, p := range w.props {
+		if p.state == "waiting" && !p.execTime.After(now) {
+			p.state = "executed"
+			w.cur, w.inc = w.grp2, nil
+			w.transExecuted++
+		}
+	}
+}
+
+const (
+	c08GovVoting     = 2 * time.Second
+	c08MinTransition = time.Second
+	c08MaxTransition = time.Hour
+)
 
 // due computes the reference trigger rule for tunnel t at time now against the feeds price store.
 func (w *c08World) due(t *c08Tunnel, now int64) (send bool, sendAll bool, newPrices []feedstypes.Price) {
@@ -247,6 +373,11 @@ func (w *c08World) applyPacket(t *c08Tunnel, prices []feedstypes.Price, now int6
 		t.lastIntvl = now
 	}
 	base, route := w.feeOf(t)
+	t.lastBase, t.lastRoute = base, route
+	t.lastWindow = w.inc != nil
+	if w.cur != nil && w.cur == w.grp2 && t.route == "tss" {
+		w.packetsAfterTransition++
+	}
 	tm := w.ch.App.AccountKeeper.GetModuleAddress(tunneltypes.ModuleName).String()
 	bm := w.ch.App.AccountKeeper.GetModuleAddress(bandtsstypes.ModuleName).String()
 	w.bal[t.feePayer] = w.bal[t.feePayer].Sub(base...).Sub(route...)
@@ -262,7 +393,7 @@ func runC08(c c08Case) *pbt.Verdict {
 	w := &c08World{c: c, v: v, queueLen: map[string]int{}, tssActive: map[string]bool{}, bal: map[string]sdk.Coins{}, prices: map[string]feedstypes.Price{}}
 	w.baseFee = c08Coins(c.BaseFee)
 	w.totalBase = sdk.NewCoins()
-	cfg := sim.Config{NumAccounts: 6, MintOff: true,
+	cfg := sim.Config{NumAccounts: 9, MintOff: true, GovVoting: c08GovVoting,
 		Balance:    sdk.NewCoins(sdk.NewInt64Coin("uband", 1_000_000_000_000), sdk.NewInt64Coin("uatom", 1_000_000_000)),
 		Validators: []sim.ValSpec{{Tokens: 10_000_000}},
 	}
@@ -271,6 +402,7 @@ func runC08(c c08Case) *pbt.Verdict {
 	cfg.TSS = &tp
 	bp := bandtsstypes.DefaultParams()
 	bp.FeePerSigner = sdk.NewCoins()
+	bp.MinTransitionDuration, bp.MaxTransitionDuration = c08MinTransition, c08MaxTransition
 	if c.FeeSigner > 0 {
 		bp.FeePerSigner = sdk.NewCoins(sdk.NewInt64Coin("uband", c.FeeSigner))
 	}
@@ -291,15 +423,44 @@ func runC08(c c08Case) *pbt.Verdict {
 	}
 	w.grp = tssworld.NewGroup(1, 2, addrs, "c08")
 	w.wallet = tssworld.NewWallet()
+	groups := []*tssworld.Group{w.grp}
+	memberIdx := []int{0, 1, 2} // ch.Users indices of all group members
+	if c.G2 != nil {
+		idx2 := []int{0, 1, 2}
+		switch c.G2.Members {
+		case "overlap":
+			idx2 = []int{1, 2, 6}
+		case "disjoint":
+			idx2 = []int{6, 7, 8}
+		}
+		var addrs2 []string
+		for _, i := range idx2 {
+			addrs2 = append(addrs2, sim.NewAccount(fmt.Sprintf("user%d", i)).Addr.String())
+			if i > 2 {
+				memberIdx = append(memberIdx, i)
+			}
+		}
+		thr2 := c.G2.Thr
+		if thr2 < 1 || thr2 > 3 {
+			thr2 = 2
+		}
+		w.grp2 = tssworld.NewGroup(2, uint64(thr2), addrs2, "c08b")
+		groups = append(groups, w.grp2)
+	}
 	cur := 0
 	if !c.HasGroup {
 		cur = -1
+	} else {
+		w.cur = w.grp
 	}
-	tssworld.GenesisFor(&cfg, []*tssworld.Group{w.grp}, cur, w.wallet, c.InitDE)
-	for _, a := range addrs {
-		w.queueLen[a] = c.InitDE
-		w.tssActive[a] = true
+	tssworld.GenesisFor(&cfg, groups, cur, w.wallet, c.InitDE)
+	for _, g := range groups {
+		for _, m := range g.Members {
+			w.queueLen[m.Addr] = c.InitDE
+			w.tssActive[c08ActiveKey(g.ID, m.Addr)] = true
+		}
 	}
+	w.nextPID = 1
 	voter := sim.NewAccount("user5").Addr.String()
 	var sigs []feedstypes.Signal
 	for i := 0; i < 4; i++ {
@@ -313,7 +474,10 @@ func runC08(c c08Case) *pbt.Verdict {
 	}
 	defer ch.Close()
 	w.ch = ch
-	w.members, w.creator, w.other, w.funder = ch.Users[:3], ch.Users[3], ch.Users[4], ch.Users[5]
+	w.creator, w.other, w.funder = ch.Users[3], ch.Users[4], ch.Users[5]
+	for _, i := range memberIdx {
+		w.members = append(w.members, ch.Users[i])
+	}
 	val := ch.Vals[0]
 	if _, err := ch.Block([][]byte{ch.SignTx(val, oracletypes.NewMsgActivate(val.Val))}, time.Second); err != nil {
 		v.Failf("harness", "activate: %v", err)
@@ -337,6 +501,8 @@ func runC08(c c08Case) *pbt.Verdict {
 		sender string
 		amount sdk.Coins
 		newT   *c08Tunnel
+		mk     func(T time.Time) []byte // signed when the block is assembled (validator-signed txs: after the price tx)
+		prop   *c08Prop
 	}
 	var block []btx
 	valPrices := map[string]feedstypes.SignalPrice{} // pending submission for this block
@@ -354,10 +520,10 @@ func runC08(c c08Case) *pbt.Verdict {
 		applyEv := func(e abci.Event) {
 			switch e.Type {
 			case "inactive_status":
-				w.tssActive[sim.Attr(e, "address")] = false
+				w.tssActive[c08ActiveKey(tss.GroupID(parseU(sim.Attr(e, "group_id"))), sim.Attr(e, "address"))] = false
 			case "activate":
 				if a := sim.Attr(e, "address"); a != "" && sim.Attr(e, "group_id") != "" {
-					w.tssActive[a] = true
+					w.tssActive[c08ActiveKey(tss.GroupID(parseU(sim.Attr(e, "group_id"))), a)] = true
 				}
 			case "request_signature":
 				for _, a := range sim.Attrs(e, "address") {
@@ -403,6 +569,18 @@ func runC08(c c08Case) *pbt.Verdict {
 				if ok {
 					w.queueLen[b.sender] = 0
 				}
+			case "govprop":
+				if !ok {
+					v.Failf("harness", "proposal submission rejected: %s", tr.Log)
+					return false
+				}
+				b.prop.state = "voting"
+				w.props = append(w.props, b.prop)
+			case "govvote":
+				if !ok {
+					v.Failf("harness", "vote rejected: %s", tr.Log)
+					return false
+				}
 			case "trigger":
 				t := b.tunnel
 				base, route := w.feeOf(t)
@@ -425,6 +603,15 @@ func runC08(c c08Case) *pbt.Verdict {
 						ps = append(ps, p)
 					}
 					w.applyPacket(t, ps, now, true)
+					t.lastNSig = 0
+					for _, e := range tr.Events {
+						if e.Type == "request_signature" && sim.Attr(e, "attempt") == "1" {
+							t.lastNSig++
+						}
+					}
+					if t.lastNSig == 2 && !t.lastRoute.IsZero() {
+						w.twoSigningsOneFee++
+					}
 					if !w.checkPacket(t, ps, now) {
 						return false
 					}
@@ -435,6 +622,11 @@ func runC08(c c08Case) *pbt.Verdict {
 					applyEv(e)
 				}
 			}
+		}
+		// governance and the bandtss end blocker run before the tunnel end blocker
+		w.stepTransition(res.Time)
+		if w.inc != nil {
+			w.windowBlocks++
 		}
 		// price store as the tunnel end blocker saw it (feeds end blocker runs before it in the same block)
 		w.prices = map[string]feedstypes.Price{}
@@ -457,9 +649,15 @@ func runC08(c c08Case) *pbt.Verdict {
 		}
 		outcome := map[uint64]string{}
 		reason := map[uint64]string{}
+		signings := map[uint64][]abci.Event{} // first-attempt request_signature events emitted while the tunnel was processed
 		var order []uint64
+		var pending []abci.Event
 		for _, e := range evs[startTunnel:] {
 			switch e.Type {
+			case "request_signature":
+				if sim.Attr(e, "attempt") == "1" {
+					pending = append(pending, e)
+				}
 			case "produce_packet_success", "produce_packet_fail", "deactivate_tunnel":
 				id := parseU(sim.Attr(e, "tunnel_id"))
 				if _, dup := outcome[id]; dup {
@@ -469,6 +667,7 @@ func runC08(c c08Case) *pbt.Verdict {
 				outcome[id] = e.Type
 				reason[id] = sim.Attr(e, "reason")
 				order = append(order, id)
+				signings[id], pending = pending, nil
 			}
 		}
 		// walk the active tunnels in id order; TSS model is advanced by each successful send
@@ -507,9 +706,28 @@ func runC08(c c08Case) *pbt.Verdict {
 					v.Failf("C08/not-produced", "tunnel %d is due at %d (sendAll=%v, %d prices) and the route can send, but outcome is %q %s", t.id, now, sendAll, len(newPrices), got, reason[t.id])
 					return false
 				}
-				// consume nonces of the members assigned to this tunnel's signing
-				w.consumeNext(evs[startTunnel:], t.id)
+				// consume nonces of the members assigned to this tunnel's signing(s): one for the current group and, while a
+				// transition waits for execution and the incoming group can sign, one for the incoming group
+				want := 1
+				for i, e := range signings[t.id] {
+					if i == 1 && w.cur != nil && w.inc != nil && w.available(w.inc) >= int(w.inc.Threshold) {
+						want = 2 // the incoming group is asked after the current group's members were taken
+					}
+					for _, a := range sim.Attrs(e, "address") {
+						w.queueLen[a]--
+					}
+				}
+				if len(signings[t.id]) == 1 && w.cur != nil && w.inc != nil && w.available(w.inc) >= int(w.inc.Threshold) {
+					want = 2
+				}
+				if want != len(signings[t.id]) {
+					v.Count("signing_count_differs_from_model", 1)
+				}
 				w.applyPacket(t, newPrices, now, sendAll)
+				t.lastNSig = len(signings[t.id])
+				if t.lastNSig == 2 && !t.lastRoute.IsZero() {
+					w.twoSigningsOneFee++
+				}
 				if sendAll {
 					t.intervalPacket = true
 				} else {
@@ -542,8 +760,11 @@ func runC08(c c08Case) *pbt.Verdict {
 			txs = append(txs, ch.SignTx(val, feedstypes.NewMsgSubmitSignalPrices(val.Val.String(), ts, sp)))
 		}
 		pre := len(txs)
-		for _, b := range block {
-			txs = append(txs, b.bz)
+		for i := range block {
+			if block[i].mk != nil {
+				block[i].bz = block[i].mk(ch.Time.Add(time.Duration(dt) * time.Second))
+			}
+			txs = append(txs, block[i].bz)
 		}
 		res, err := ch.Block(txs, time.Duration(dt)*time.Second)
 		if err != nil {
@@ -565,10 +786,11 @@ func runC08(c c08Case) *pbt.Verdict {
 			}
 			dep := sdk.NewCoins(sdk.NewInt64Coin("uband", 10))
 			var msg sdk.Msg
+			tick := false
 			if op.Route == "tss" {
 				enc := feedstypes.ENCODER_FIXED_POINT_ABI
-				if tunnelCount%2 == 1 { // every second tunnel signs tick-encoded packets
-					enc = feedstypes.ENCODER_TICK_ABI
+				if (op.Enc == "" && tunnelCount%2 == 1) || op.Enc == "tick" { // by default every second tunnel signs tick-encoded packets
+					enc, tick = feedstypes.ENCODER_TICK_ABI, true
 				}
 				msg, _ = tunneltypes.NewMsgCreateTSSTunnel(sds, op.Interval, "eth", "0xabc", enc, dep, w.creator.Addr.String())
 			} else {
@@ -576,6 +798,7 @@ func runC08(c c08Case) *pbt.Verdict {
 			}
 			tunnelCount++
 			t := &c08Tunnel{id: tunnelCount, route: op.Route, signals: op.Signals, interval: int64(op.Interval), creator: w.creator.Addr.String(), latest: map[string]feedstypes.Price{}}
+			t.tick = tick
 			block = append(block, btx{op: op, bz: ch.SignTx(w.creator, msg), newT: t})
 			// the fee payer address is only known after creation: create, end the block, then fund + activate
 			if !flush(1) {
@@ -626,8 +849,31 @@ func runC08(c c08Case) *pbt.Verdict {
 				}
 				block = append(block, btx{op: op, sender: m.Addr.String(), des: op.N, bz: ch.SignTx(m, tsstypes.NewMsgSubmitDEs(des, m.Addr.String()))})
 			}
+		case "transition":
+			if w.grp2 == nil {
+				v.Count("inapplicable_transition", 1)
+				break
+			}
+			// a real proposal: submitted and voted on by the validator in one block; governance executes the message in the
+			// first block at or after the end of the voting period, the transition then waits for its execution time
+			pr := &c08Prop{pid: w.nextPID}
+			w.nextPID++
+			wait := time.Duration(op.N) * time.Second
+			block = append(block, btx{op: c08Op{K: "govprop"}, prop: pr, mk: func(T time.Time) []byte {
+				pr.votingEnd = T.Add(c08GovVoting)
+				pr.execTime = pr.votingEnd.Add(wait)
+				m := bandtsstypes.NewMsgForceTransitionGroup(w.grp2.ID, pr.execTime, sim.GovAuthority())
+				sp, err := govv1.NewMsgSubmitProposal([]sdk.Msg{m}, sdk.NewCoins(sdk.NewInt64Coin("uband", 10)), val.Addr.String(), "", "t", "s", false)
+				if err != nil {
+					return nil
+				}
+				return ch.SignTx(val, sp)
+			}})
+			block = append(block, btx{op: c08Op{K: "govvote"}, prop: pr, mk: func(T time.Time) []byte {
+				return ch.SignTx(val, govv1.NewMsgVote(val.Addr, pr.pid, govv1.OptionYes, ""))
+			}})
 		case "drain":
-			m := w.members[op.T%3]
+			m := w.members[op.T%len(w.members)]
 			block = append(block, btx{op: op, sender: m.Addr.String(), bz: ch.SignTx(m, tsstypes.NewMsgResetDE(m.Addr.String()))})
 		case "price":
 			id := c08Signals[op.Sig%4]
@@ -734,6 +980,34 @@ func runC08(c c08Case) *pbt.Verdict {
 		v.Class("signed-packet-with-non-available-price")
 	}
 	v.Count("signed_packets_decoded", int64(w.signedPackets))
+	if w.windowBlocks > 0 {
+		v.Class("transition-window")
+	}
+	if w.twoGroupPackets > 0 {
+		v.Class("tss-packet-signed-by-two-groups")
+	}
+	if w.twoGroupTick > 0 {
+		v.Class("tick-packet-signed-by-two-groups")
+	}
+	if w.incomingOnlyPackets > 0 {
+		v.Class("tss-packet-signed-by-incoming-group-only")
+	}
+	if w.transExecuted > 0 {
+		v.Class("transition-executed")
+	}
+	if w.transRejected > 0 {
+		v.Class("transition-proposal-rejected")
+	}
+	if w.packetsAfterTransition > 0 {
+		v.Class("tss-packet-after-transition")
+	}
+	if w.twoSigningsOneFee > 0 {
+		v.Class("two-signings-one-fee")
+	}
+	v.Count("window_blocks", int64(w.windowBlocks))
+	v.Count("two_group_packets", int64(w.twoGroupPackets))
+	v.Count("two_group_tick_packets", int64(w.twoGroupTick))
+	v.Count("tick_values_checked", int64(w.tickValuesChecked))
 	v.NonTrivial = dev && intv && (w.failedSend > 0 || w.deactivatedUnfunded > 0)
 	_ = deposits
 	return v
@@ -762,25 +1036,6 @@ func (w *c08World) fundAmount(t *c08Tunnel, kind string) sdk.Coins {
 		return sdk.NewCoins(sdk.NewInt64Coin("uband", 1))
 	}
 	return fee
-}
-
-// consumeNext applies the first not-yet-consumed attempt-1 request_signature event that precedes the success
-// event of the tunnel to the nonce model.
-func (w *c08World) consumeNext(evs []abci.Event, tunnelID uint64) {
-	last := -1
-	for i, e := range evs {
-		if e.Type == "request_signature" && sim.Attr(e, "attempt") == "1" {
-			last = i
-		}
-		if e.Type == "produce_packet_success" && parseU(sim.Attr(e, "tunnel_id")) == tunnelID {
-			break
-		}
-	}
-	if last >= 0 {
-		for _, a := range sim.Attrs(evs[last], "address") {
-			w.queueLen[a]--
-		}
-	}
 }
 
 func (w *c08World) checkPacket(t *c08Tunnel, prices []feedstypes.Price, now int64) bool {
@@ -845,7 +1100,7 @@ func (w *c08World) compare(now int64) bool {
 				}
 				if t.seq > 0 {
 					pk, _ := k.GetPacket(ctx, t.id, t.seq)
-					base, route := w.feeOf(t)
+					base, route := t.lastBase, t.lastRoute
 					if !pk.BaseFee.Equal(base) || !pk.RouteFee.Equal(route) {
 						v.Failf("C08/packet-fee", "tunnel %d packet %d records fees %s + %s, reference %s + %s", t.id, t.seq, pk.BaseFee, pk.RouteFee, base, route)
 						return false
@@ -887,20 +1142,36 @@ func (w *c08World) compare(now int64) bool {
 		return false
 	}
 	// nonce queues follow the model (a failed send must not have consumed nonces)
-	if w.c.HasGroup {
-		for _, m := range w.grp.Members {
-			q := ch.App.TSSKeeper.GetDEQueue(ctx, sdk.MustAccAddressFromBech32(m.Addr))
-			if int(q.Tail-q.Head) != w.queueLen[m.Addr] {
-				v.Failf("C08/nonce-leak", "member %s has %d queued nonces, reference %d (a failed or rolled back send consumed nonces?)", m.Addr, q.Tail-q.Head, w.queueLen[m.Addr])
+	if w.c.HasGroup || w.grp2 != nil {
+		for _, m := range w.members {
+			a := m.Addr.String()
+			q := ch.App.TSSKeeper.GetDEQueue(ctx, m.Addr)
+			if int(q.Tail-q.Head) != w.queueLen[a] {
+				v.Failf("C08/nonce-leak", "member %s has %d queued nonces, reference %d (a failed or rolled back send consumed nonces?)", a, q.Tail-q.Head, w.queueLen[a])
 				return false
 			}
 		}
+	}
+	// the harness' picture of the signing groups must be the chain's
+	var curID, incID tss.GroupID
+	if w.cur != nil {
+		curID = w.cur.ID
+	}
+	if w.inc != nil {
+		incID = w.inc.ID
+	}
+	if got, gotInc := ch.App.BandtssKeeper.GetCurrentGroup(ctx).GroupID, ch.App.BandtssKeeper.GetIncomingGroupID(ctx); got != curID || gotInc != incID {
+		v.Failf("harness", "bandtss current/incoming group %d/%d at %d, the harness expects %d/%d", got, gotInc, now, curID, incID)
+		return false
 	}
 	return true
 }
 
 // checkSignedPacket: the bytes the group was asked to sign for a TSS-route packet must decode (reference decoders) to the
-// packet stored on chain: tunnel originator, creation time, sequence and EVERY price entry of the stored packet.
+// packet stored on chain: tunnel originator, creation time, the signing's own id, sequence and EVERY price entry of the
+// stored packet (tick encoder: the largest tick whose price does not exceed the stored price; 0 for "no price"). While a
+// group transition waits for execution the current AND the incoming group are asked to sign: both signings must pass,
+// and both must carry the same content.
 func (w *c08World) checkSignedPacket(t *c08Tunnel, pk tunneltypes.Packet) bool {
 	v, ch := w.v, w.ch
 	ctx := ch.Ctx()
@@ -914,49 +1185,129 @@ func (w *c08World) checkSignedPacket(t *c08Tunnel, pk tunneltypes.Packet) bool {
 		return false
 	}
 	bs, err := ch.App.BandtssKeeper.GetSigning(ctx, tr.SigningID)
-	if err != nil || bs.CurrentGroupSigningID == 0 {
+	if err != nil || (bs.CurrentGroupSigningID == 0 && bs.IncomingGroupSigningID == 0) {
 		return true
 	}
-	sg, err := ch.App.TSSKeeper.GetSigning(ctx, bs.CurrentGroupSigningID)
-	if err != nil {
-		v.Failf("C08/signing-missing", "tunnel %d packet %d: receipt names signing %d which does not exist: %v", t.id, pk.Sequence, bs.CurrentGroupSigningID, err)
-		return false
-	}
-	w.signedPackets++
-	ps, err := ref.ParseSigningMessage(sg.Message)
-	if err != nil {
-		v.Failf("C11/signed-tunnel-packet", "tunnel %d packet %d: %v", t.id, pk.Sequence, err)
-		return false
-	}
-	if want := ref.EncKeccak256(ref.EncodeTunnelOriginator(ch.Cfg.ChainID, t.id, "eth", "0xabc")); !bytes.Equal(ps.OriginatorHash, want) {
-		v.Failf("C11/signed-tunnel-packet", "tunnel %d packet %d: signed message is not bound to the tunnel originator (chain %s, tunnel %d, eth, 0xabc)", t.id, pk.Sequence, ch.Cfg.ChainID, t.id)
-		return false
-	}
-	route, kind, body, err := ref.SplitContent(ps.Content)
-	if err != nil || route != ref.RouteTunnel || (kind != ref.KindFixedPointABI && kind != ref.KindTickABI) {
-		v.Failf("C11/signed-tunnel-packet", "tunnel %d packet %d: signed content tagged %s/%s (%v)", t.id, pk.Sequence, route, kind, err)
-		return false
-	}
-	seq, rps, createdAt, err := ref.DecodeTunnelPacket(body)
-	if err != nil {
-		v.Failf("C11/signed-tunnel-packet", "tunnel %d packet %d: signed content does not decode: %v", t.id, pk.Sequence, err)
-		return false
-	}
-	if seq != pk.Sequence || createdAt != pk.CreatedAt || len(rps) != len(pk.Prices) {
-		v.Failf("C11/signed-tunnel-packet", "tunnel %d: signed content says sequence %d created %d with %d prices, the stored packet has sequence %d created %d with %d prices (%v)",
-			t.id, seq, createdAt, len(rps), pk.Sequence, pk.CreatedAt, len(pk.Prices), pk.Prices)
-		return false
-	}
-	for i, p := range pk.Prices {
-		if rps[i].SignalID != p.SignalID || (kind == ref.KindFixedPointABI && rps[i].Value != p.Price) {
-			v.Failf("C11/signed-tunnel-packet", "tunnel %d packet %d entry %d: signed %s=%d, stored %s=%d", t.id, pk.Sequence, i, rps[i].SignalID, rps[i].Value, p.SignalID, p.Price)
+	first := t.classedSeq != pk.Sequence
+	t.classedSeq = pk.Sequence
+	var contents [][]byte
+	for _, s := range []struct {
+		who string
+		id  tss.SigningID
+	}{{"current", bs.CurrentGroupSigningID}, {"incoming", bs.IncomingGroupSigningID}} {
+		if s.id == 0 {
+			continue
+		}
+		sg, err := ch.App.TSSKeeper.GetSigning(ctx, s.id)
+		if err != nil {
+			v.Failf("C08/signing-missing", "tunnel %d packet %d: receipt names %s group signing %d which does not exist: %v", t.id, pk.Sequence, s.who, s.id, err)
 			return false
 		}
-		if p.Status != feedstypes.PRICE_STATUS_AVAILABLE {
-			w.signedNonAvailable++
+		content, ok := w.checkSigningOfPacket(t, pk, sg, s.who, first)
+		if !ok {
+			return false
+		}
+		contents = append(contents, content)
+	}
+	w.signedPackets++
+	if len(contents) == 2 && !bytes.Equal(contents[0], contents[1]) {
+		v.Failf("C11/signed-tunnel-packet", "tunnel %d packet %d: the current group (signing %d) and the incoming group (signing %d) were asked to sign different content for the same packet: %x vs %x",
+			t.id, pk.Sequence, bs.CurrentGroupSigningID, bs.IncomingGroupSigningID, contents[0], contents[1])
+		return false
+	}
+	if first {
+		switch {
+		case len(contents) == 2:
+			w.twoGroupPackets++
+			if t.tick {
+				w.twoGroupTick++
+			}
+		case bs.CurrentGroupSigningID == 0:
+			w.incomingOnlyPackets++
 		}
 	}
 	return true
+}
+
+// checkSigningOfPacket compares one tss signing with the stored packet and returns the signed content bytes.
+func (w *c08World) checkSigningOfPacket(t *c08Tunnel, pk tunneltypes.Packet, sg tsstypes.Signing, who string, first bool) ([]byte, bool) {
+	v, ch := w.v, w.ch
+	fail := func(f string, a ...any) ([]byte, bool) {
+		v.Failf("C11/signed-tunnel-packet", "tunnel %d packet %d, %s group signing %d: %s", t.id, pk.Sequence, who, sg.ID, fmt.Sprintf(f, a...))
+		return nil, false
+	}
+	ps, err := ref.ParseSigningMessage(sg.Message)
+	if err != nil {
+		return fail("%v", err)
+	}
+	if want := ref.EncKeccak256(ref.EncodeTunnelOriginator(ch.Cfg.ChainID, t.id, "eth", "0xabc")); !bytes.Equal(ps.OriginatorHash, want) {
+		return fail("signed message is not bound to the tunnel originator (chain %s, tunnel %d, eth, 0xabc)", ch.Cfg.ChainID, t.id)
+	}
+	if ps.Time != uint64(pk.CreatedAt) || ps.SigningID != uint64(sg.ID) {
+		return fail("signed header says time %d signing id %d; the packet was created at %d and the signing has id %d", ps.Time, ps.SigningID, pk.CreatedAt, sg.ID)
+	}
+	route, kind, body, err := ref.SplitContent(ps.Content)
+	if err != nil || route != ref.RouteTunnel || (kind != ref.KindFixedPointABI && kind != ref.KindTickABI) {
+		return fail("signed content tagged %s/%s (%v)", route, kind, err)
+	}
+	if (kind == ref.KindTickABI) != t.tick {
+		return fail("signed content tagged %s although the tunnel's encoder is tick=%v", kind, t.tick)
+	}
+	seq, rps, createdAt, err := ref.DecodeTunnelPacket(body)
+	if err != nil {
+		return fail("signed content does not decode: %v", err)
+	}
+	if seq != pk.Sequence || createdAt != pk.CreatedAt || len(rps) != len(pk.Prices) {
+		return fail("signed content says sequence %d created %d with %d prices, the stored packet has sequence %d created %d with %d prices (%v)",
+			seq, createdAt, len(rps), pk.Sequence, pk.CreatedAt, len(pk.Prices), pk.Prices)
+	}
+	for i, p := range pk.Prices {
+		if rps[i].SignalID != p.SignalID || (kind == ref.KindFixedPointABI && rps[i].Value != p.Price) {
+			return fail("entry %d: signed %s=%d, stored %s=%d", i, rps[i].SignalID, rps[i].Value, p.SignalID, p.Price)
+		}
+		if kind == ref.KindTickABI {
+			if msg := c08JudgeTick(p.Price, rps[i].Value); msg != "" {
+				if msg == "known" {
+					v.Count("tick_one_low_in_known_band", 1)
+				} else {
+					return fail("entry %d: signed %s tick %d (%#x), stored price %d: %s", i, rps[i].SignalID, rps[i].Value, rps[i].Value, p.Price, msg)
+				}
+			}
+			if first {
+				w.tickValuesChecked++
+			}
+		}
+		if first && who != "incoming" && p.Status != feedstypes.PRICE_STATUS_AVAILABLE {
+			w.signedNonAvailable++
+		}
+	}
+	return ps.Content, true
+}
+
+// c08JudgeTick: the signed value of a tick-encoded entry must be 0 for price 0 and otherwise 2^18 + the largest tick t
+// with 10^9 * 1.0001^t <= price (judged with the 384-bit reference and its 2^-64 guard band). "known" is returned for a
+// tick exactly one too low on a price >= 2^53 (open finding C11/tick-upper-last-units, judged by the C11 tick stage).
+func c08JudgeTick(price, signed uint64) string {
+	if price == 0 {
+		if signed != 0 {
+			return "an entry without a price must carry 0"
+		}
+		return ""
+	}
+	if signed > uint64(2*ref.TickOffset) {
+		return "outside the tick range"
+	}
+	tk := int64(signed) - ref.TickOffset
+	lo, up := ref.JudgeTick(price, tk)
+	if lo != ref.TickBad && up != ref.TickBad {
+		return ""
+	}
+	if price >= 1<<53 && lo != ref.TickBad {
+		if lo2, up2 := ref.JudgeTick(price, tk+1); lo2 != ref.TickBad && up2 != ref.TickBad {
+			return "known"
+		}
+	}
+	return fmt.Sprintf("not the largest tick whose price does not exceed the stored price (reference tick %d = %#x encoded)", ref.RefTick(price), ref.RefTick(price)+ref.TickOffset)
 }
 
 var _ = hex.EncodeToString
